@@ -2,7 +2,7 @@
    finite generated table). *)
 From Coq Require Import List String ZArith NArith Bool.
 Import ListNotations.
-From VF Require Import C16.Model C16.Proofs C16.ProofsF C16.ProofsA C16.ProofsB1 C16.ProofsB2 C16.ProofsB3 C16.ProofsB4.
+From VF Require Import C16.Model C16.Proofs C16.ProofsF C16.ProofsA C16.ProofsB1 C16.ProofsB2 C16.ProofsB3 C16.ProofsB4 C16.ProofsB5 C16.ProofsS.
 Local Open Scope string_scope.
 Local Open Scope list_scope.
 
@@ -246,6 +246,61 @@ Example jwt_claims_nonvacuous :
   | None => False
   end.
 Proof. vm_compute. repeat split. Qed.
+
+(* ---- presentations: enclosed credentials in every form, RE-PARSE EQUALITY ----
+   env: which strings are compact JWS and whether their payload carries _sd_alg (decided by the jose code, handed over
+   by the harness).  An enclosed credential is a JSON-LD object, a JWT, or an SD-JWT in combined format
+   jwt~disclosure~...~[holder binding] (issuance or presentation spelling, any number of disclosures). *)
+Theorem forms_roundtrip_enclosed_credentials : forall env o cs,
+  dec_creds env o = Some cs -> dec_creds env (enc_creds cs) = Some cs.
+Proof. exact creds_reparse. Qed.
+Print Assumptions forms_roundtrip_enclosed_credentials.
+
+(* the combined format splits back into the parts it was joined from *)
+Theorem combined_format_roundtrip : forall parts,
+  parts <> [] -> forallb no_tilde parts = true -> split_tilde (join_tilde parts) = parts.
+Proof. exact split_join. Qed.
+Print Assumptions combined_format_roundtrip.
+
+(* for every presentation the parser accepts, parsing what MarshalJSON wrote yields the same presentation object:
+   contexts, id, types, holder, proofs, custom members and every enclosed credential with all its disclosures *)
+Theorem vp_reparse_equal : forall env m p,
+  vp_guard m = true -> parse_vp env (JObj m) = Some p -> parse_vp env (marshal_vp Fixed p) = Some p.
+Proof. exact vp_reparse. Qed.
+Print Assumptions vp_reparse_equal.
+
+Example vp_reparse_nonvacuous :
+  let env := [("h.p.s", true); ("a.b.c", false)] in
+  let d := [("@context", JArr [JStr "c"; JObj [("k", JStr "v")]]); ("type", JStr "VerifiablePresentation"); ("holder", JStr "did:h");
+            ("verifiableCredential", JArr [JStr "h.p.s~d1~d2"; JStr "a.b.c"; JObj [("type", JStr "T")]; JStr "h.p.s~d3~"]); ("x", JNum 1%Z)] in
+  vp_guard d = true /\
+  option_map p_creds (parse_vp env (JObj d)) =
+    Some [CJwt "h.p.s" ["d1"; "d2"] "" true; CJwt "a.b.c" [] "" false; CObj (JObj [("type", JStr "T")]); CJwt "h.p.s" ["d3"] "" true] /\
+  option_map (fun p => enc_creds (p_creds p)) (parse_vp env (JObj d)) =
+    Some (Some (JArr [JStr "h.p.s~d1~d2~"; JStr "a.b.c"; JObj [("type", JStr "T")]; JStr "h.p.s~d3~"])).
+Proof. vm_compute. repeat split. Qed.
+
+(* ---- DID services: key references ----
+   recipientKeys / routingKeys whose spellings are consistent (references to one key all relative or all absolute) are
+   written back exactly as they came, for any @base *)
+Theorem service_key_refs_roundtrip : forall did base keys,
+  consistent did base keys ->
+  out_keys did base (map (abs_id did base) keys) (key_table did base keys) = keys.
+Proof. exact key_refs_roundtrip. Qed.
+Print Assumptions service_key_refs_roundtrip.
+
+(* every custom property of a service comes back (as its float64 image) *)
+Theorem service_custom_member_roundtrip : forall did base m k,
+  ~ In k service_typed_keys -> lookup (roundtrip_service did base m) k = option_map f64j (lookup m k).
+Proof. exact service_custom_member. Qed.
+Print Assumptions service_custom_member_roundtrip.
+
+(* when one list spells a key both ways the last spelling is used for all of them *)
+Theorem service_key_refs_mixed_refuted :
+  let keys := ["#k1"; "did:a#k1"] in
+  out_keys "did:a" "" (map (abs_id "did:a" "") keys) (key_table "did:a" "" keys) = ["did:a#k1"; "did:a#k1"].
+Proof. vm_compute. reflexivity. Qed.
+Print Assumptions service_key_refs_mixed_refuted.
 
 (* ---- key fingerprints (multibase/base58 layer outside: sampled on btcutil) ----
    for every code of the generated multicodec table except G1G2 and every key byte string:
